@@ -430,13 +430,15 @@ public:
     const long k = std::floor((p[2] - anchor[2]) / cell[2]);
     const uint64_t h = hash3(seed, i, j, k);
     DensityValues v;
-    double n = nscale * (0.25 + (h & 0xffff) / 65536. * 1.5);
+    // periodic boxes (allow_empty == false) are kept opaque enough that a packet wraps around a few hundred times
+    // at most (accumulated round-off grows with the number of hand-overs)
+    double n = nscale * ((allow_empty ? 0.25 : 0.5) + (h & 0xffff) / 65536. * (allow_empty ? 1.5 : 1.0));
     if (allow_empty && ((h >> 16) & 7) == 0)
       n = 0.;
     v.set_number_density(n);
     for (int ion = 0; ion < NUMBER_OF_IONNAMES; ++ion)
       v.set_ionic_fraction(ion, 0.);
-    v.set_ionic_fraction(ION_H_n, 0.1 + ((h >> 20) & 0xff) / 256. * 0.9);
+    v.set_ionic_fraction(ION_H_n, (allow_empty ? 0.1 : 0.5) + ((h >> 20) & 0xff) / 256. * (allow_empty ? 0.9 : 0.5));
 #ifdef HAS_HELIUM
     v.set_ionic_fraction(ION_He_n, ((h >> 28) & 0xff) / 256. * 0.5);
 #endif
@@ -608,7 +610,8 @@ static int trace_mode() {
     const double hmean = (cell[0] + cell[1] + cell[2]) / 3.;
     const double ncmean = (nc[0] + nc[1] + nc[2]) / 3.;
     // optical depth of ~0.15 per cell .. a few per box
-    const double sigmaH = (0.05 + 0.6 * rng.uni()) / hmean / std::max(1., ncmean / 6.);
+    const double sigmaH = anyper ? (0.3 + 0.7 * rng.uni()) / hmean
+                                 : (0.05 + 0.6 * rng.uni()) / hmean / std::max(1., ncmean / 6.);
     const double sigmaHe = 0.3 * sigmaH;
 
     Creator split(box, nc, ns, per);
@@ -695,13 +698,18 @@ static int trace_mode() {
           dpos = std::min(dpos, std::fabs(dpos - sides[ax]));
         const double scale = std::fabs(anchor[ax]) + sides[ax];
         maxpos = std::max(maxpos, dpos / scale);
-        if (!(dpos <= 1.e-10 * scale))
+        // round-off accumulates with every hand-over (tau_target - tau_done is re-rounded): 1e-10 per 1000 hand-overs
+        if (!(dpos <= 1.e-10 * scale * (1. + a.handovers / 1000.)))
           bad << " final-position-differs(axis=" << ax << ",split=" << a.pos[ax] << ",whole=" << b.pos[ax] << ")" << id.str();
       }
       {
         const double dt = std::fabs(a.tau_left - b.tau_left);
         maxtau = std::max(maxtau, dt / ps.tau);
-        if (!(dt <= 1.e-10 * ps.tau))
+        // a position error of relative size eps shifts the optical depth by eps * (optical depth across the box scale)
+        double scmax = 0.;
+        for (int ax = 0; ax < 3; ++ax)
+          scmax = std::max(scmax, std::fabs(anchor[ax]) + sides[ax]);
+        if (!(dt <= 1.e-10 * (ps.tau + 2. * sigmaH * scmax) * (1. + a.handovers / 1000.)))
           bad << " remaining-optical-depth-differs(split=" << a.tau_left << ",whole=" << b.tau_left << ")" << id.str();
       }
       nabs += a.absorbed;
